@@ -24,6 +24,18 @@ let () =
          | DOk o -> print_endline ("OK " ^ hex_of_zlist o)
          | DBadChar c -> print_endline "BAD"
          | DLengthError -> print_endline "LEN")
+      | "D2" :: _ :: second :: [] ->
+        (* the model is a function: reusing the caller's string cannot matter *)
+        let cs = zlist_of_hex (if second = "-" then "" else second) in
+        (match base64_decode cs with
+         | DOk o -> print_endline ("OK " ^ hex_of_zlist o)
+         | DBadChar c -> print_endline "BAD"
+         | DLengthError -> print_endline "LEN")
+      | "E2" :: _ :: second :: [] ->
+        let bs = zlist_of_hex (if second = "-" then "" else second) in
+        (match base64_encode bs with
+         | Some o -> print_endline ("OK " ^ hex_of_zlist o)
+         | None -> print_endline "FUEL")
       | "R" :: rest ->
         let bs = zlist_of_hex (match rest with [h] -> h | _ -> "") in
         print_endline ("OK " ^ hex_of_zlist (rfc4648 bs))
